@@ -71,6 +71,18 @@ def cases(tier, rng):
                        "attach b %s id=%s" % (scen.PEER[t], ident), "recvw b " + W.tok(W.msg(two))]
                 out.append("s%d sock %s / %s" % (k, t, " / ".join(ops)))
                 k += 1
+    # a parked recv is woken by, and returns, a message that is complete although its last frame is empty
+    for t in ("PULL", "SUB", "DEALER", "ROUTER", "REP", "XPUB"):
+        for m in ([b"job", b""], [b""], [b"a", b"", b""]):
+            mm = ([b""] + m) if t == "REP" else ([b"\x01t"] + m[1:]) if t == "XPUB" else m
+            for cut in (0, 1, len(W.msg(mm)) - 1):
+                b = W.msg(mm)
+                ops = ["attach a " + scen.PEER[t]]
+                if cut:
+                    ops.append("feed a " + W.tok(b[:cut]))
+                ops += ["recvw a " + W.tok(b[cut:])]
+                out.append("t%d sock %s / %s" % (k, t, " / ".join(ops)))
+                k += 1
     return out
 
 
@@ -85,6 +97,10 @@ def judge(line, obs, orc):
         last = obs.split()[-1]
         if "lost-wakeup" in last:
             return "lost wake-up: a peer re-connected under a still-registered identity, its message arrived, the parked recv was never woken"
+        if line.split()[0].startswith("t"):
+            if not last.startswith("r=ok:"):
+                return "a complete message (last frame empty) arrived while recv was parked and was not returned: " + last[:80]
+            return None
         if not last.startswith("r=ok:") or not last.endswith("74776f"):
             return "the message of the re-connected peer was not delivered: " + last[:80]
         return None
